@@ -644,6 +644,38 @@ func checkPrepareKeepsBody(p *Prog, r *Report, rule string) {
 			if _, fn, _, ok := fieldOf(st.Addr); !ok || fn != "buffer" {
 				return
 			}
+			// the stored value is still (a window of / an extension of) the buffer that was there: a fresh slice - even one
+			// with the right header - drops the specifiers a constructor appended before PrepareRecord ran
+			var rootsIn func(v ssa.Value, d int) bool
+			rootsIn = func(v ssa.Value, d int) bool {
+				v = stripChange(v)
+				if d > 8 {
+					return false
+				}
+				if isFieldLoad(v, "pkg/entities.baseRecord.buffer") {
+					return true
+				}
+				switch x := v.(type) {
+				case *ssa.Slice:
+					return rootsIn(x.X, d+1)
+				case *ssa.Call:
+					if calleeName(&x.Call) == "builtin:append" && len(x.Call.Args) > 0 {
+						return rootsIn(x.Call.Args[0], d+1)
+					}
+				case *ssa.Phi:
+					for _, e := range x.Edges {
+						if !rootsIn(e, d+1) {
+							return false
+						}
+					}
+					return len(x.Edges) > 0
+				}
+				return false
+			}
+			if !rootsIn(st.Val, 0) {
+				bad = "the buffer is replaced by a slice that is not the record's buffer so far"
+				pos = p.instrPos(in)
+			}
 			for _, v := range backwardSlice(st.Val, 64) {
 				sl, ok := v.(*ssa.Slice)
 				if !ok || sl.High == nil || !isFieldLoad(sl.X, "pkg/entities.baseRecord.buffer") {
